@@ -183,6 +183,13 @@ func genCast(r *gen.R, validOnly bool) (mon.OpReq, Expect, bool) {
 			return req, Expect{Kind: MustError, Why: "target type is not a numeric type the library supports"}, true
 		case 1:
 			req.Attrs = []*mon.Attr{mon.AttrI(r.PickStr("To", "dtype", "saturate"), int64(to.OnnxCode()))}
+			if r.Bool() { // a valid `to` next to an attribute opset 13 does not have, in either order
+				extra := mon.AttrI(r.PickStr("saturate", "round_mode", "axis", "To"), int64(r.Intn(2)))
+				req.Attrs = []*mon.Attr{mon.AttrI("to", int64(to.OnnxCode())), extra}
+				if r.Bool() {
+					req.Attrs[0], req.Attrs[1] = req.Attrs[1], req.Attrs[0]
+				}
+			}
 			return req, Expect{Kind: MustError, Why: "unknown attribute"}, true
 		case 2: // Cast to bool: valid ONNX, may be refused
 			want := ref.New(ref.Bool, shape...)
